@@ -74,7 +74,7 @@ def terpene_profiles() -> List[Dict[str, Any]]:
     import antismash.modules.terpene as terpene
     path = os.path.join(os.path.dirname(terpene.__file__), "data", "hmm_properties.json")
     with open(path, encoding="utf-8") as handle:
-        return [{"name": p["name"], "length": int(p["length"]), "cutoff": float(p["cutoff"])}
+        return [{"name": p["name"], "length": int(p["length"]), "cutoff": float(p["cutoff"]), "type": p["type"]}
                 for p in json.load(handle)["profiles"]]
 
 
